@@ -52,11 +52,19 @@ type c15Entry struct {
 	markedPast                  *time.Time
 	numUpdates                  int
 	present                     bool // in the previous feed
+	// the one stop (A) of the trip's update lists
+	stopSeen   bool
+	stopLast   time.Time
+	stopMarked *time.Time
 }
 
 func (e *c15Entry) String() string {
-	return fmt.Sprintf("uid=%q id=%q route=%q dir=%s start=%s vehicle=%q lastObserved=%s markedPast=%s updates=%d stop[A]{lastObserved=%s markedPast=%s}", e.uid, e.tripID, e.route, e.dir,
-		fmtTime(e.start), e.vehicle, fmtTime(e.lastObserved), fmtTimePtr(e.markedPast), e.numUpdates, fmtTime(e.lastObserved), fmtTimePtr(e.markedPast))
+	s := fmt.Sprintf("uid=%q id=%q route=%q dir=%s start=%s vehicle=%q lastObserved=%s markedPast=%s updates=%d", e.uid, e.tripID, e.route, e.dir,
+		fmtTime(e.start), e.vehicle, fmtTime(e.lastObserved), fmtTimePtr(e.markedPast), e.numUpdates)
+	if !e.stopSeen {
+		return s + " stop[A]{none}"
+	}
+	return s + fmt.Sprintf(" stop[A]{lastObserved=%s markedPast=%s}", fmtTime(e.stopLast), fmtTimePtr(e.stopMarked))
 }
 
 func c15Feed(k int, states [4]int) *gtfs.Realtime {
@@ -72,7 +80,10 @@ func c15Feed(k int, states [4]int) *gtfs.Realtime {
 		trip := gtfs.Trip{ID: gtfs.TripID{ID: id.id, RouteID: id.route, DirectionID: id.dir, HasStartDate: true, StartDate: id.startDate, HasStartTime: true, StartTime: id.startTime},
 			StopTimeUpdates: []gtfs.StopTimeUpdate{{StopID: &stop, Arrival: &gtfs.StopTimeEvent{Time: &arr}}}, IsEntityInMessage: true}
 		if st >= 2 {
-			trip.Vehicle = &gtfs.Vehicle{ID: &gtfs.VehicleID{ID: fmt.Sprintf("v%d", st-1)}}
+			trip.Vehicle = &gtfs.Vehicle{ID: &gtfs.VehicleID{ID: c15VehicleOf(st)}}
+		}
+		if st == 4 {
+			trip.StopTimeUpdates = nil // seen with a vehicle, but the update lists no stop
 		}
 		f.Trips = append(f.Trips, trip)
 	}
@@ -103,22 +114,44 @@ func c15Reference(history [][4]int) map[string]*c15Entry {
 			e.tripID, e.route, e.dir, e.start = id.id, id.route, id.dir, id.start()
 			e.vehicle = ""
 			if hasVehicle {
-				e.vehicle = fmt.Sprintf("v%d", st-1)
+				e.vehicle = c15VehicleOf(st)
 				e.assigned = true
 			}
 			e.lastObserved = t
 			e.markedPast = nil
 			e.numUpdates++
+			if st == 4 {
+				// an update without stops: every recorded stop is no longer reported
+				if e.stopSeen && e.stopMarked == nil {
+					tt := t
+					e.stopMarked = &tt
+				}
+			} else {
+				e.stopSeen, e.stopLast, e.stopMarked = true, t, nil
+			}
 		}
 		for uid, e := range entries {
-			if e.present && !now[uid] && e.markedPast == nil {
-				tt := t
-				e.markedPast = &tt
+			if e.present && !now[uid] {
+				if e.markedPast == nil {
+					tt := t
+					e.markedPast = &tt
+				}
+				if e.stopSeen && e.stopMarked == nil {
+					tt := t
+					e.stopMarked = &tt
+				}
 			}
 			e.present = now[uid]
 		}
 	}
 	return entries
+}
+
+func c15VehicleOf(state int) string {
+	if state == 3 {
+		return "v2"
+	}
+	return "v1" // states 2 and 4
 }
 
 type c15Window struct {
@@ -132,6 +165,9 @@ var c15Windows = []c15Window{
 	{"exactly[S1,S1]", c15S1, c15S1},
 	{"ends-1s-before-S1", farPast, c15S1.Add(-time.Second)},
 	{"starts-1s-after-S1", c15S1.Add(time.Second), farFuture},
+	{"starts-500ms-after-S1", c15S1.Add(500 * time.Millisecond), farFuture},
+	{"ends-500ms-before-S1", farPast, c15S1.Add(-500 * time.Millisecond)},
+	{"[S1-500ms,S1+500ms]", c15S1.Add(-500 * time.Millisecond), c15S1.Add(500 * time.Millisecond)},
 }
 
 func c15Harness(maxLen int, fourth bool) Harness {
@@ -144,15 +180,13 @@ func c15Harness(maxLen int, fourth bool) Harness {
 		var history [][4]int
 		var names []string
 		for k := 0; k < n; k++ {
-			nsym := 64
+			// T1 in {absent, unassigned, v1, v2, v1 with an empty update list}; T2, T3 in {absent, unassigned, v1, v2}
+			nsym := 80
 			if fourth {
-				nsym = 192 // T4 in {absent, unassigned, vehicle v1}
+				nsym = 240 // T4 in {absent, unassigned, vehicle v1}
 			}
 			sym := c.Free(fmt.Sprintf("feed[%d]", k), nsym)
-			st := [4]int{sym % 4, (sym / 4) % 4, (sym / 16) % 4, sym / 64}
-			if st[3] == 2 {
-				st[3] = 2 // vehicle v1
-			}
+			st := [4]int{sym % 5, (sym / 5) % 4, (sym / 20) % 4, sym / 80}
 			history = append(history, st)
 			names = append(names, fmt.Sprintf("%d%d%d%d", st[0], st[1], st[2], st[3]))
 		}
@@ -166,7 +200,7 @@ func c15Harness(maxLen int, fourth bool) Harness {
 		defer func() { feedTimeScheme = 0 }()
 		hist += fmt.Sprintf(" [feed times: scheme %d]", feedTimeScheme)
 		c.Input(hash64(hist), n >= 2, func() string {
-			return "history (per feed: state of T1,T2,T3,T4; 0 absent, 1 unassigned, 2 vehicle v1, 3 vehicle v2): " + hist
+			return "history (per feed: state of T1,T2,T3,T4; 0 absent, 1 unassigned, 2 vehicle v1, 3 vehicle v2, 4 vehicle v1 with an empty update list): " + hist
 		})
 		var feeds []*gtfs.Realtime
 		for k, st := range history {
@@ -174,7 +208,12 @@ func c15Harness(maxLen int, fourth bool) Harness {
 		}
 		ref := c15Reference(history)
 		var outcome strings.Builder
-		for _, w := range c15Windows {
+		windows := c15Windows
+		if n >= 3 && c.Tier == "quick" {
+			// the window test does not depend on the length of the history: three windows for the long ones
+			windows = []c15Window{c15Windows[0], c15Windows[2], c15Windows[5]}
+		}
+		for _, w := range windows {
 			j, ok := buildJournalGuarded(c, feeds, w.start, w.end)
 			if !ok {
 				return
@@ -214,6 +253,8 @@ func c15Harness(maxLen int, fourth bool) Harness {
 				// the stop-level part is rendered from the journal's own stop times
 				if len(t.StopTimes) == 1 && t.StopTimes[0].StopID == "A" {
 					s = s[:strings.Index(s, " stop[A]")] + fmt.Sprintf(" stop[A]{lastObserved=%s markedPast=%s}", fmtTime(t.StopTimes[0].LastObserved), fmtTimePtr(t.StopTimes[0].MarkedPast))
+				} else if len(t.StopTimes) == 0 {
+					s = s[:strings.Index(s, " stop[A]")] + " stop[A]{none}"
 				} else {
 					s = s[:strings.Index(s, " stop[A]")] + fmt.Sprintf(" stops=%d", len(t.StopTimes))
 				}
@@ -295,7 +336,7 @@ func init() {
 	register(&Check{
 		ID:    "C15",
 		Level: "model_checking",
-		Rule: "three trip identities (T1, T2 share start instant and id suffix -> one UID; T3 other suffix and start) each per feed in {absent, unassigned, vehicle v1, vehicle v2} = 64 feed symbols; ALL histories of <= 3 feeds (thorough <= 4) x 5 windows, histories of <= 2 (thorough 3) feeds additionally under 4 feed-time schemes (60 s apart, all equal, no timestamps, decreasing); plus a fourth identity T4 (same trip id and start date as T1, another start time) in {absent, unassigned, v1}: 192 symbols, ALL histories of <= 2 (thorough 3) feeds x 5 windows; " +
+		Rule: "three trip identities (T1, T2 share start instant and id suffix -> one UID; T3 other suffix and start) each per feed in {absent, unassigned, vehicle v1, vehicle v2} (T1 also: vehicle v1 with an empty update list) = 80 feed symbols; ALL histories of <= 3 feeds (thorough <= 4) x 8 windows (incl. bounds with a sub-second part), histories of <= 2 (thorough 3) feeds additionally under 4 feed-time schemes (60 s apart, all equal, no timestamps, decreasing); plus a fourth identity T4 (same trip id and start date as T1, another start time) in {absent, unassigned, v1}: 240 symbols, ALL histories of <= 2 (thorough 3) feeds x 8 windows (incl. bounds with a sub-second part); " +
 			"non-trivial = distinct histories of >= 2 feeds; oracle = reference accountant compared field by field (UID, id fields, vehicle, last observed, marked past, update count, stop-level marks), order and uniqueness included",
 		Assumptions: []string{"feeds list their trips in identifier order, as ParseRealtime produces them", "feed times are 60 s apart starting at a fixed instant"},
 		Scenarios: func(tier string) []*Scenario {
